@@ -127,6 +127,31 @@ def explicitBoth (k : Kind) (a b : Sk) : Except Err (Sk × Sk) := do
   let b2 ← downsampleScaled k b m
   pure (a2, b2)
 
+def showFrac (p : Nat × Nat) : String :=
+  let f := Float.ofNat p.1 / Float.ofNat p.2
+  if f.isNaN then "nan" else showF f
+
+def showG (g : GStats) : String :=
+  "isect_bp=" ++ toString g.intersectBp ++ " rem_bp=" ++ toString g.remainingBp ++
+  " uniq_bp=" ++ toString g.uniqueIntersectBp ++ " fo=" ++ showFrac g.fOrigQuery ++
+  " fm=" ++ showFrac g.fMatch ++ " fmo=" ++ showFrac g.fMatchOrig ++ " fu=" ++ showFrac g.fUniqueToQuery
+
+/-- the property's reading of the gather statistics: the match is first cut at the query's ceiling -/
+def specG (q m : SReg) : String :=
+  if m.scaled > q.scaled then "err CannotUpsampleScaled" else
+  match specDs m q.scaled with
+  | .error e => e
+  | .ok m' =>
+    match specCompat m' q with
+    | some _ => "-"          -- the code panics here (`expect`); outside the property
+    | none =>
+      let mk := m'.keys
+      let qk := q.keys
+      let io := (inter mk qk).length
+      showG { intersectBp := q.scaled * io, remainingBp := (qk.length - io) * q.scaled,
+              uniqueIntersectBp := q.scaled * io, fOrigQuery := (io, qk.length), fMatch := (1, mk.length),
+              fMatchOrig := (io, mk.length), fUniqueToQuery := (io, qk.length) }
+
 def binop (st : St) (op : String) (r1 r2 : Nat) (args : List String) : St × Resp :=
   match getR st.regs r1, getR st.regs r2, getR st.sregs r1, getR st.sregs r2 with
   | some a, some b, some sa, some sb =>
@@ -160,6 +185,18 @@ def binop (st : St) (op : String) (r1 r2 : Nat) (args : List String) : St × Res
       let m := showSim (similarity st.kind a b ig d)
       let s := if d then (match specBoth sa sb with | .ok (x, y) => specSim x y ig | .error e => e) else specSim sa sb ig
       (st, resp st m s)
+    else if op == "gstats" then
+      -- gstats Q M : calculate_gather_stats(orig_query = Q, remaining_query = Q, match = M, match_size = 1)
+      let m := match gatherStats st.kind a a b 1 with
+        | .ok g => showG g
+        | .error e => showErr e
+      (st, resp st m (specG sa sb))
+    else if op == "gstatsx" then
+      -- the same with the match explicitly downsampled to the query's scaled beforehand
+      let m := match downsampleScaled st.kind b a.scaled with
+        | .ok b' => (match gatherStats st.kind a a b' 1 with | .ok g => showG g | .error e => showErr e)
+        | .error e => showErr e
+      (st, resp st m (specG sa sb))
     else if op == "ccx" then
       let m := match explicitBoth st.kind a b with
         | .ok (x, y) => (match countCommon st.kind x y false with | .ok c => "common=" ++ toString c | .error e => showErr e)
